@@ -413,6 +413,32 @@ pub fn c15_diff_window(p: &vt100::Screen, s: &vt100::Screen, start: u16, width: 
 }
 
 /// C19: two screens with equal observable state (offset 0) emit identical bytes and diff to nothing
+/// C19, last sentence: `state_formatted` / `state_diff` are exactly the concatenation of their
+/// contents and input-mode parts — for ANY pair of same-size screens, not only look-alikes
+pub fn c19_concat(a: &vt100::Screen, b: &vt100::Screen) -> Option<Failure> {
+    let mut sf = a.contents_formatted();
+    sf.extend(a.input_mode_formatted());
+    if a.state_formatted() != sf {
+        return fail("C19", "state_formatted-concat", "state_formatted is not contents_formatted ++ input_mode_formatted".into());
+    }
+    if a.size() != b.size() {
+        return None;
+    }
+    for (x, y) in [(a, b), (b, a)] {
+        let mut sd = x.contents_diff(y);
+        sd.extend(x.input_mode_diff(y));
+        let got = x.state_diff(y);
+        if got != sd {
+            return fail(
+                "C19",
+                "state_diff-concat",
+                format!("state_diff = {} but contents_diff ++ input_mode_diff = {}", crate::hex(&got), crate::hex(&sd)),
+            );
+        }
+    }
+    None
+}
+
 pub fn c19(a: &vt100::Screen, b: &vt100::Screen) -> Option<Failure> {
     if a.scrollback() != 0 || b.scrollback() != 0 {
         return None;
